@@ -596,6 +596,12 @@ fn cmd_search() {
             let trace = crate::search::verif::TRACE.lock().unwrap().take().unwrap_or_default();
             crate::search::verif::CACHE_OFF.store(false, std::sync::atomic::Ordering::Relaxed);
             let (bm, bs, n, sd) = search.verif_result();
+            // the legal moves of the searched position by the engine's own generator (so that the legality of the answer can be
+            // judged on the engine alone, whatever move the model would have chosen)
+            let legal_txt = catch_unwind(AssertUnwindSafe(|| {
+                board.clone().get_legal_moves().iter().map(|m| format!("\"{}\"", m.to_notation())).collect::<Vec<_>>().join(",")
+            }))
+            .unwrap_or_default();
             let writes: Vec<String> = trace
                 .iter()
                 .map(|w| {
@@ -613,7 +619,7 @@ fn cmd_search() {
                 })
                 .collect();
             println!(
-                "RESULT {{\"panic\":{},\"spec\":\"{}\",\"timer\":{},\"cut\":{},\"cut_loads\":{},\"cut_reads\":{},\"best\":{},\"score\":{},\"nodes\":{},\"seldepth\":{},\"writes\":[{}]}}",
+                "RESULT {{\"panic\":{},\"spec\":\"{}\",\"timer\":{},\"cut\":{},\"cut_loads\":{},\"cut_reads\":{},\"best\":{},\"score\":{},\"nodes\":{},\"seldepth\":{},\"legal\":[{}],\"writes\":[{}]}}",
                 r.is_err(),
                 spec,
                 timer,
@@ -624,6 +630,7 @@ fn cmd_search() {
                 bs.map_or("null".to_string(), |x| x.to_string()),
                 n,
                 sd,
+                legal_txt,
                 writes.join(",")
             );
         }
@@ -994,6 +1001,87 @@ fn o_wins_in(n: u32, b: &mut Board) -> bool {
     }
     false
 }
+/// memoised forced-mate solver (key, n) -> bool with a work budget: Some(true/false) = decided, None = budget exhausted
+struct Solver {
+    memo: std::collections::HashMap<(u64, u32), bool>,
+    budget: u64,
+}
+impl Solver {
+    fn new(budget: u64) -> Self {
+        Self { memo: std::collections::HashMap::new(), budget }
+    }
+    /// the side to move can force mate within n of its own moves
+    fn wins(&mut self, n: u32, b: &mut Board) -> Option<bool> {
+        if n == 0 {
+            return Some(false);
+        }
+        let k = (b.zkey.verif_u64(), n);
+        if let Some(v) = self.memo.get(&k) {
+            return Some(*v);
+        }
+        if self.budget == 0 {
+            return None;
+        }
+        self.budget -= 1;
+        let mut res = false;
+        let mut moves = legal_moves_of(b);
+        // checking moves first
+        moves.sort_by_key(|m| {
+            b.make_move(*m);
+            let c = b.is_in_check(b.current_turn);
+            b.unmake_move();
+            !c
+        });
+        for m in moves {
+            b.make_move(m);
+            let r = self.lost(n - 1, b);
+            b.unmake_move();
+            match r {
+                None => return None,
+                Some(true) => {
+                    res = true;
+                    break;
+                }
+                Some(false) => {}
+            }
+        }
+        self.memo.insert(k, res);
+        Some(res)
+    }
+    /// the side to move is mated, or has a move and every move leaves the opponent a forced mate within n moves
+    fn lost(&mut self, n: u32, b: &mut Board) -> Option<bool> {
+        let rs = legal_moves_of(b);
+        if rs.is_empty() {
+            return Some(b.is_in_check(b.current_turn));
+        }
+        if n == 0 {
+            return Some(false);
+        }
+        for r in rs {
+            b.make_move(r);
+            let w = self.wins(n, b);
+            b.unmake_move();
+            match w {
+                None => return None,
+                Some(false) => return Some(false),
+                Some(true) => {}
+            }
+        }
+        Some(true)
+    }
+    /// iterative deepening: Some(true) as soon as some level <= max proves it
+    fn lost_within(&mut self, max: u32, b: &mut Board) -> Option<bool> {
+        for n in 0..=max {
+            match self.lost(n, b) {
+                None => return None,
+                Some(true) => return Some(true),
+                Some(false) => {}
+            }
+        }
+        Some(false)
+    }
+}
+
 fn o_keeps_mate(n: u32, b: &mut Board, m: Ply) -> bool {
     b.make_move(m);
     let ok = if o_is_mated(b) {
@@ -1064,20 +1152,57 @@ fn cmd_matehunt() {
             let allows: Vec<bool> = legal.iter().map(|m| o_allows_mate_in_one(&mut b, *m)).collect();
             let avoidable = allows.iter().any(|x| *x) && allows.iter().any(|x| !*x);
             let mut viol: Vec<String> = Vec::new();
-            if !mating.is_empty() || win2 || avoidable {
-                for seq in seqs.split(';') {
+            let interesting = !mating.is_empty() || win2 || avoidable;
+            let mut mate_scores = 0u32;
+            {
+                // positions without any of the three facts are still searched (two sequences): a mate SCORE must never be a lie
+                // (props/C12sound.v: score >= 32000 => the chosen move forces mate; score <= -32000 => the position is lost)
+                for seq in seqs.split(';').enumerate().filter(|(i, _)| interesting || *i == 0 || *i == 2).map(|(_, x)| x) {
                     TRANSPOSITION_TABLE.write().unwrap().clear();
                     for (k, d) in seq.split(',').enumerate() {
                         let depth: u8 = d.trim().trim_start_matches('d').parse().unwrap_or(3);
                         let mut search = Search::new(&b, None);
                         *crate::search::verif::TRACE.lock().unwrap() = None;
                         search.search(&SimpleEvaluator, Some(depth));
-                        let (bm, _, _, _) = search.verif_result();
+                        let (bm, bs, _, _) = search.verif_result();
+                        let Some(c) = bm else { continue };
+                        let mut clause = 0;
+                        if mating.is_empty() {
+                            if let Some(sc) = bs {
+                                // the distance the score claims (mate at ply 32767 - sc / sc + 32768), plus three moves of slack for
+                                // ply-relative scores reused at other plies; 40 = undecided (solver budget exhausted), not judged
+                                if sc >= 32000 {
+                                    mate_scores += 1;
+                                    let claimed = (32767 - i32::from(sc) + 1) / 2;
+                                    let mut sv = Solver::new(3_000_000);
+                                    b.make_move(c);
+                                    let r = sv.lost_within((claimed + 2).max(1) as u32, &mut b);
+                                    b.unmake_move();
+                                    clause = match r {
+                                        Some(true) => 0,
+                                        Some(false) => 4,
+                                        None => 44,
+                                    };
+                                } else if sc <= -32000 {
+                                    mate_scores += 1;
+                                    let claimed = (i32::from(sc) + 32768) / 2;
+                                    let mut sv = Solver::new(3_000_000);
+                                    let r = sv.lost_within((claimed + 3).max(1) as u32, &mut b);
+                                    clause = match r {
+                                        Some(true) => 0,
+                                        Some(false) => 5,
+                                        None => 44,
+                                    };
+                                }
+                            }
+                        }
+                        if clause != 0 {
+                            viol.push(format!("{{\"seq\":\"{seq}\",\"k\":{k},\"move\":\"{}\",\"clause\":{clause}}}", c.to_notation()));
+                            continue;
+                        }
                         if depth < 3 {
                             continue;
                         }
-                        let Some(c) = bm else { continue };
-                        let mut clause = 0;
                         if !mating.is_empty() {
                             if !mating.iter().any(|m| m.start == c.start && m.dest == c.dest && m.promoted_to == c.promoted_to) {
                                 clause = 1;
@@ -1105,10 +1230,11 @@ fn cmd_matehunt() {
             }
             TRANSPOSITION_TABLE.write().unwrap().clear();
             format!(
-                "{{\"facts\":[{},{},{}],\"violations\":[{}]}}",
+                "{{\"facts\":[{},{},{}],\"mate_scores\":{},\"violations\":[{}]}}",
                 u8::from(!mating.is_empty()),
                 u8::from(win2),
                 u8::from(avoidable),
+                mate_scores,
                 viol.join(",")
             )
         }));
